@@ -144,9 +144,8 @@ Proof.
     pose proof (credit_nonneg q got) as Hc0.
     destruct (crashes_now e (c_sh c)).
     { apply Hgo. unfold wsrc. cbn [wpc with_src s_cur]. lia. }
-    unfold src_next. destruct (s_cur (c_sh c) <? e_len e) eqn:Ecur.
-    + apply N.ltb_lt in Ecur.
-      assert (Hs : forall calls, (wsrc e (with_src (c_sh c) (s_cur (c_sh c) + 1) calls) = wsrc e (c_sh c) - 10)%Z).
+    destruct (src_next_cases e (c_sh c)) as [[Es Ecur]|[Es _]]; rewrite Es.
+    + assert (Hs : forall calls, (wsrc e (with_src (c_sh c) (s_cur (c_sh c) + 1) calls) = wsrc e (c_sh c) - 10)%Z).
       { intros calls. unfold wsrc. cbn [with_src s_cur]. lia. }
       pose proof (credit_nonneg q (s_cur (c_sh c) :: got)) as Hc1.
       pose proof (credit_pub_nonneg q (s_cur (c_sh c) :: got)) as Hc2.
@@ -650,7 +649,7 @@ Qed.
 
 Example fair_termination_applies :
   let e := {| e_kind := KIter; e_adaptor := ANone; e_len := 4; e_start := 0; e_end := 0; e_hint := HInexact;
-              e_owning := true; e_mode := Wrapping; e_crash := Some 3 |} in
+              e_owning := true; e_mode := Wrapping; e_crash := Some 3; e_gap := fun _ => false |} in
   let progs := fun t => match t with 0%nat => [Loop LForEach 2 None] | 1%nat => [Next NVal; Chunk 2 1] | _ => [] end in
   let sched := [0; 1; 0; 1; 1]%nat in
   let blocks := repeat [0; 1; 1; 0]%nat 80 in
